@@ -310,7 +310,8 @@ def decl_tokens(d, style):
         t += ["impl", d["protocol"], "for", d["type"]]
         if d["name"]:
             # 'impl p for S as {' reads 'as' as the keyword: a binding *named* "as" needs it spelled out
-            if d["name"] == "as" or style.flag(0.8, True):
+            # (names that merely BEGIN with "as" are written without the keyword more often than not)
+            if d["name"] == "as" or style.flag(0.3 if d["name"].startswith("as") else 0.8, True):
                 t.append("as")
             t.append(d["name"])
         t.append("{")
